@@ -89,6 +89,8 @@ def gen_plan(rng, tier, index):
             ['weighted_regress', 'select', 'interpolate', 'weighted_regress',
              'weighted_optimize' if rng.chance(0.1) else 'weighted_ridge']
         plan.update({'method': method, 'models': [rng.pick(kinds) for _ in range(rng.randint(1, 2))]})
+        if rng.chance(0.15):
+            plan['fit_fault'] = rng.randint(1, 5)      # the k-th fit (not the first) fails with LinAlgError
     return plan
 
 
@@ -438,11 +440,18 @@ def _pre_boot(plan, src):
 
 
 class SpyFitter:
-    def __init__(self, inner, log, scripted=None):
-        self.inner, self.log, self.scripted = inner, log, scripted
+    def __init__(self, inner, log, scripted=None, fault=None):
+        self.inner, self.log, self.scripted, self.fault = inner, log, scripted, fault
 
     def __call__(self, model, data, method='cosine', pattern_idx=None, pattern_descriptor=None, sigma_k=None):
         n = len(self.log)
+        if self.fault is not None and not self.fault['fired'] and self.fault['attempts'] == self.fault['call']:
+            # injected fault: the fit of this fold fails the way a singular design makes it fail
+            self.fault['fired'] = True
+            self.fault['attempts'] += 1
+            raise np.linalg.LinAlgError('Singular matrix')
+        if self.fault is not None:
+            self.fault['attempts'] += 1
         if self.scripted is not None:
             theta = self.scripted[n]
         else:
@@ -512,7 +521,11 @@ def _pipeline(ctx, plan, value_fn, script, strict, scripted_thetas=None):
             used = []
             for m in models:
                 _spy_predict(m, used)
-            spies = [SpyFitter(f, log, scripted_thetas) for f in fitters]
+            fault = None
+            if plan.get('fit_fault') is not None and scripted_thetas is None:
+                fault = {'call': plan['fit_fault'], 'attempts': 0, 'fired': False}
+            spies = [SpyFitter(f, log, scripted_thetas, fault) for f in fitters]
+            out['fit_fault'] = fault
             train_set, test_set, ceil_set = res
             r = crossval(models, src, train_set, test_set, ceil_set=ceil_set, method=plan['method'],
                          fitter=spies, pattern_descriptor=plan['pat_desc'] if plan['gen'] not in RDM_ONLY else 'index',
@@ -608,6 +621,10 @@ def execute(plan, ctx):
     except Exception as e:
         if type(e).__name__ in NUMERIC or 'Singular' in str(e):
             ctx.probe('primitive_failed')
+            if plan.get('fit_fault') is not None:
+                ctx.fault('fitter_linalg_error')       # injected and propagated to the caller: nothing was fitted on other data
+                ctx.nontrivial = True
+                ctx.behaviour('B', g, 'fit-fault-propagated', plan['fit_fault'])
             return
         ctx.violation('noninterf.raises', f'{g}:B:raises:{type(e).__name__}',
                       f'crossval over {g} folds raised {type(e).__name__}: {e}')
@@ -622,6 +639,24 @@ def execute(plan, ctx):
     ctx.nontrivial = True
     train_set, test_set, _ = rec['res']
     nm = len(rec['models'])
+    ff = rec.get('fit_fault')
+    if ff is not None and ff['fired']:
+        # the fit of one (fold, model) failed, yet crossval returned: whatever parameters it then used for that fold were
+        # not fitted on that fold's training data (a value kept from another fold has seen this fold's test data)
+        ctx.fault('fitter_linalg_error')
+        f_bad, j_bad = ff['call'] // nm, ff['call'] % nm
+        ev = rec['evals']
+        scored = f_bad < ev.shape[2] and np.isfinite(ev[0, j_bad, f_bad])
+        if scored:
+            ctx.violation('noninterf.fit_failure', f'{g}:B:failed-fit-replaced',
+                          f'{g}: the fit of model {j_bad} on fold {f_bad} raised LinAlgError (injected), but crossval returned a '
+                          f'score {ev[0, j_bad, f_bad]!r} for that fold: the parameters used there were not fitted on its training data')
+        else:
+            ctx.probe('failed_fit_marked_nan')
+        ctx.behaviour('B', g, 'fit-fault-returned', plan['fit_fault'])
+        return
+    if ff is not None:
+        ctx.probe('fit_fault_not_reached')
     log = rec['log']
     # which fitter calls belong to which fold: by identity of the training object
     calls = {}
